@@ -857,6 +857,16 @@ fn parse_expr(
                         )]);
                     }
 
+                    // a prefix operator hands up the pair of its operand: `-a ?= b` / `!a ?= b` still
+                    // show an `ident` pair although the left side is not a plain name
+                    if !matches!(lhs, Expr::Value(Value::Ident(..))) {
+                        return Err(vec![new_err(
+                            span.as_span(),
+                            &user_data.get_source_file_name(),
+                            "this operation requires a variable name on its left-hand side, but it found an expression".to_owned(),
+                        )]);
+                    }
+
                     Op::Unwrap
                 },
                 Rule::add_assign => Op::AddAssign,
